@@ -3,9 +3,9 @@
    for EVERY dimension and EVERY extent of the stated domain.  Model = Select.v (image of the C++), Spec =
    the np_ / doc_ definitions of Select.v.  "…_inb" parts are the copy statement of the property: the
    designated source index of a non-fill element lies inside the source (property C02 cites them).
-   Routines without an element theorem here (sliding_window, diagonal, roll with a tuple of axes, the stack
-   family, split, expand, compress, repeat with per-element counts, where, arange / linspace / full) are
-   CORRESPONDENCE-ONLY: modelled, specified and compared with the C++ on the explored grid, not proved. *)
+   Routines without an element theorem here (roll with a tuple of axes, sliding_window / expand with several axes,
+   diagonal beyond matrices, the stack family, split, compress with axis=None, repeat with per-element counts, where,
+   arange / linspace / full) are CORRESPONDENCE-ONLY: modelled, specified and compared with the C++ on the explored grid, not proved. *)
 From NM Require Import Base Index IndexProofs Select SelectProofs.
 Local Open Scope Z_scope.
 
@@ -125,6 +125,16 @@ Theorem C04_take_negative_index_refuted : exists s ind k,
 Proof. exists [2;3], [-1], 0. witness. Qed.
 Print Assumptions C04_take_negative_index_refuted.
 
+(* compress along 0 <= axis < dim with a condition no longer than the axis: NumPy's take of the true positions *)
+Theorem C04_compress_axis_on_domain : forall s c a i, 0 <= a < zlen s ->
+  zlen c <= nth (Z.to_nat a) s 0 -> nth (Z.to_nat a) s 0 <= 2 ^ 64 ->
+  shape_compress_axis s c a = set_nth (Z.to_nat a) (zlen (np_true_positions c)) s
+  /\ np_take_axis_shape s (np_true_positions c) a = Some (set_nth (Z.to_nat a) (zlen (np_true_positions c)) s)
+  /\ (inb i (set_nth (Z.to_nat a) (zlen (np_true_positions c)) s) ->
+      np_take_axis_index s (np_true_positions c) i a = Some (compress_axis_index c i a) /\ inb (compress_axis_index c i a) s).
+Proof. exact compress_axis_spec. Qed.
+Print Assumptions C04_compress_axis_on_domain.
+
 (* compress = take of the true positions; the same un-normalised axis comparison *)
 Theorem C04_compress_negative_axis_refuted : exists s c a,
   pos s /\ - zlen s <= a < 0 /\ np_take_axis_shape s (np_true_positions c) a <> Some (shape_compress_axis s c a).
@@ -198,6 +208,41 @@ Theorem C04_diagflat : forall n k r c, 0 <= n -> 0 <= r < n + Z.abs k -> 0 <= c 
 Proof. exact diagflat_spec. Qed.
 Print Assumptions C04_diagflat.
 
+(* ---------- sliding_window / expand along one axis, diagonal of a matrix ---------- *)
+(* one axis (negative included), window w: extent n - (w-1) on the axis, a trailing window axis of extent w;
+   element (j, t) is the source element at j with t added on the axis *)
+Theorem C04_sliding_window_axis : forall s w a j t, pos s -> - zlen s <= a < zlen s ->
+  exists k, np_axis a (zlen s) = Some k
+  /\ shape_sliding_window_axes s [w] [a] = Val (set_nth k (nth k s 0 - (w - 1)) s ++ [w])
+  /\ np_sw_shape s [w] [a] = set_nth k (nth k s 0 - (w - 1)) s ++ [w]
+  /\ (inb (j ++ [t]) (set_nth k (nth k s 0 - (w - 1)) s ++ [w]) -> length j = length s ->
+      sliding_window_axes_index (length s) (j ++ [t]) [a] = np_sw_index (length s) (j ++ [t]) [a]
+      /\ inb (sliding_window_axes_index (length s) (j ++ [t]) [a]) s).
+Proof. exact sliding_window_axis_spec. Qed.
+Print Assumptions C04_sliding_window_axis.
+
+(* one axis (negative included), spacing q >= 0: n -> n + (n-1) q; multiples of q+1 read the source, the rest is fill *)
+Theorem C04_expand_axis : forall s a q i, pos s -> 0 <= q -> - zlen s <= a < zlen s ->
+  exists k, np_axis a (zlen s) = Some k
+  /\ shape_expand s [a] [q] = Val (set_nth k (nth k s 0 + (nth k s 0 - 1) * q) s)
+  /\ doc_expand_shape1 s a q = Some (set_nth k (nth k s 0 + (nth k s 0 - 1) * q) s)
+  /\ (inb i (set_nth k (nth k s 0 + (nth k s 0 - 1) * q) s) ->
+      doc_expand_index1 i a q = Some (expand_index s i [a] [q])
+      /\ forall j, expand_index s i [a] [q] = Some j -> inb j s).
+Proof. exact expand_axis_spec. Qed.
+Print Assumptions C04_expand_axis.
+
+(* PARTIAL: matrices with axes (0,1) and offset >= 0 only; higher dimensions and other axis pairs are
+   correspondence-only; negative offsets are refuted below *)
+Theorem C04_diagonal_matrix_partial : forall n1 n2 offset t, 1 <= n1 -> 1 <= n2 -> 0 <= offset ->
+  0 <= t < np_diag_len n1 n2 offset ->
+  shape_diagonal [n1; n2] offset 0 1 = Val [np_diag_len n1 n2 offset]
+  /\ np_diagonal_shape [n1; n2] offset 0 1 = Some [np_diag_len n1 n2 offset]
+  /\ np_diagonal_index 2 [t] offset 0 1 = Some (diagonal_index 2 [t] offset 0 1)
+  /\ inb (diagonal_index 2 [t] offset 0 1) [n1; n2].
+Proof. exact diagonal_2d_spec. Qed.
+Print Assumptions C04_diagonal_matrix_partial.
+
 (* ---------- diagonal, arange, linspace: refutations of the full statement ---------- *)
 Theorem C04_diagonal_negative_offset_refuted : exists s offset i d,
   pos s /\ np_diagonal_shape s offset 0 1 = Some d /\ inb i d
@@ -239,6 +284,10 @@ Example C04_nonvacuous_concat : np_concat_axis_shape [2;3] [2;2] 1 = Some [2;5] 
 Proof. repeat split; try (repeat constructor; lia). Qed.
 Example C04_nonvacuous_resize : doc_resize_shape [2;3] [4;2] = Some [4;2] /\ resize_index [3;1] [2;3] [4;2] = [1;1].
 Proof. split; reflexivity. Qed.
+Example C04_nonvacuous_sw : shape_sliding_window_axes [3;4] [2] [-1] = Val [3;3;2]
+  /\ sliding_window_axes_index 2 [2;1;1] [-1] = [2;2] /\ expand_index [2;3] [1;2] [-1] [1] = Some [1;1]
+  /\ expand_index [2;3] [1;1] [-1] [1] = None /\ diagonal_index 2 [1] 1 0 1 = [1;2].
+Proof. repeat split. Qed.
 Example C04_nonvacuous_tril : inb [1;2] [3;3] /\ tril_index [3;3] [1;2] 0 = None /\ tril_index [3;3] [2;1] 0 = Some [2;1]
   /\ triu_index [3;3] [1;2] 0 = Some [1;2].
 Proof. repeat split; try (repeat constructor; lia). Qed.
